@@ -1,5 +1,6 @@
 import NbdimeModel
 import NbdimeProofs.Lemmas.Resolve
+import NbdimeProofs.Lemmas.MergeOrder
 /-
   C09 — merge decisions describe the merge. Model: NbdimeModel/Apply.lean (independent applier).
   Proved here: what the ordering predicate run on every produced decision list means; that
@@ -71,5 +72,25 @@ theorem C09_apply_single_root (base : J) (d : Decision) (hp : d.path = []) :
 example : childrenFirst [⟨[.s "cells", .i 0], "local", false, some [], none, none⟩, ⟨[.s "cells"], "local", false, some [], none, none⟩] = true ∧
     childrenFirst [⟨[.s "cells"], "local", false, some [], none, none⟩, ⟨[.s "cells", .i 0], "local", false, some [], none, none⟩] = false := by
   decide
+
+
+/-- **ordering clause for the model of the merger**: whatever decisions the builder holds (any
+    inputs, any strategies), the list `validated` returns is children-first. With
+    `C09_childrenFirst_sound` this is the statement of the property for the model; the tie to
+    `decide_merge_with_diff` is the merge-model correspondence run by the check. -/
+theorem C09_validated_childrenFirst (b : Merge.B) :
+    childrenFirst ((Merge.validated b).map Merge.MD.toDecision) = true :=
+  Merge.validated_childrenFirst b
+
+/-- the same for the whole decision procedure -/
+theorem C09_decideMerge_childrenFirst (E : Merge.Env) (base : J) (ld rd : List Op) (ds : List Merge.MD)
+    (h : Merge.decideMerge E base ld rd = .ok ds) : childrenFirst (ds.map Merge.MD.toDecision) = true := by
+  unfold Merge.decideMerge at h
+  simp only [bind, Except.bind] at h
+  split at h
+  · cases h
+  · simp only [pure, Except.pure, Except.ok.injEq] at h
+    subst h
+    exact Merge.validated_childrenFirst _
 
 end Nbdime
